@@ -29,6 +29,9 @@ type CheckDef struct {
 	// Custom, when set, replaces the E1 runs (E3 / E2 checks).
 	Custom      func(tier string, seed int64) *CustomResult
 	Assumptions []string
+	// Also, when set on a check that is made of explicit-state runs, is executed after them (a second engine deciding
+	// another part of the same property); its findings, harness errors and coverage are merged into the result.
+	Also func(tier string) *CustomResult
 	// Replay, when set, re-executes one stored counterexample of a Custom check directly (returns 1 when reproduced).
 	Replay func(fp string, raw interface{}) int
 }
@@ -52,12 +55,12 @@ func registerCheck(c *CheckDef) {
 // ReplayCustom re-runs the (deterministic) enumeration of a non-E1 check and looks for the stored counterexample.
 func ReplayCustom(prop, fp, tier string, raw interface{}) int {
 	def := Checks[prop]
+	if def != nil && def.Replay != nil {
+		return def.Replay(fp, raw)
+	}
 	if def == nil || def.Custom == nil {
 		fmt.Println("no custom check for", prop)
 		return 2
-	}
-	if def.Replay != nil {
-		return def.Replay(fp, raw)
 	}
 	want, _ := json.Marshal(raw)
 	cr := def.Custom(tier, 0)
